@@ -248,10 +248,12 @@ package op
 //@ func Meter.validate returns (err)
 //@   pure
 //@   ensures (err == nil) == (m.Denom >= 1 && m.Num >= 1)
+//@   ensures err != nil ==> !errIs(err, errorx.ErrOK)
 
 //@ func NewMeter returns (m, err)
 //@   pure
 //@   ensures (err == nil) == (denom >= 1 && num >= 1)
+//@   ensures err != nil ==> !errIs(err, errorx.ErrOK)
 //@   ensures m.Num == num && m.Denom == denom
 
 //@ func BPM.validate returns (err)
